@@ -17,6 +17,13 @@ OPAQUE = {"withKids", "kidsOf", "kidsOfN", "kidsOfD", "withAttrs", "attrsOf", "a
           "removeClassAttrs", "hasClassAttrs", "optArg"}
 
 
+def _z3_str(t):
+    """the Python string denoted by a z3 string literal (z3 escapes non-printable / non-ASCII characters as \\u{..})"""
+    import re
+    raw = t.as_string()
+    return re.sub(r"\\u\{([0-9a-fA-F]+)\}", lambda m: chr(int(m.group(1), 16)), raw)
+
+
 class Z3World(Evaluator):
     def __init__(self, reg=REG, ctx=None):
         super().__init__(reg)
@@ -158,7 +165,31 @@ class Z3World(Evaluator):
         fn = self.ctor_fn(c)
         return Val(c.adt.name, fn(*[a.v for a in args]) if args else fn)
 
+    def _const_py(self, sort, t):
+        t = z3.simplify(t)
+        if sort == "Str" and z3.is_string_value(t):
+            return True, _z3_str(t)
+        if sort in ("Int", "Nat") and z3.is_int_value(t):
+            return True, t.as_long()
+        if sort == "Bool" and (z3.is_true(t) or z3.is_false(t)):
+            return True, z3.is_true(t)
+        return False, None
+
     def b_call(self, f: SpecFn, args, caller):
+        if f.kind == "prim" and f.z3def is None and f.pyfn is not None and f.ret in ("Str", "Int", "Nat", "Bool") and args:
+            # constant folding: a primitive applied to literals is evaluated by its Python body (the CPython operation itself)
+            cs = [self._const_py(s_, a.v) for (_, s_), a in zip(f.params, args)]
+            if all(ok for ok, _ in cs):
+                try:
+                    r = f.pyfn(*[v for _, v in cs])
+                    if f.ret == "Str" and isinstance(r, str):
+                        return self.b_str(r)
+                    if f.ret == "Bool" and isinstance(r, bool):
+                        return self.b_bool(r)
+                    if f.ret in ("Int", "Nat") and isinstance(r, int) and not isinstance(r, bool):
+                        return self.b_int(r, f.ret)
+                except Exception:
+                    pass
         if f.name in self.funcs:
             if f.kind == "spec" and f.node is not None and self._unfold_depth < 40:
                 # partial evaluation: unfold a defined function whose control flow is decided by the constructors already
